@@ -89,6 +89,8 @@ def compare(snap, scfg, stage, report):
 def check_graph(g, fam, acc: Acc, opts):
     # names and payload types do not interact: relabelled instances carry plain blocks only
     payloads = opts.get("payloads") or (PAYLOADS if get_labeling() is None else ("basic",))
+    if fam == "E6" and not opts.get("payloads"):
+        payloads = ("basic", "ast")       # six-block classes: bytecode ranges are covered up to five blocks and by the BC families
     G = as_named(g)
     for payload in payloads:
         snap = None
